@@ -2,6 +2,7 @@ package c17
 
 import (
 	"fmt"
+	"github.com/kardiachain/go-kardia/lib/rlp"
 	"math/big"
 	"os"
 	"path/filepath"
@@ -554,6 +555,22 @@ func (s *session) doAdd(op *opSpec) {
 		raw = append(raw, t.tx)
 	}
 	viaLocal := op.Via == "local"
+	if !viaLocal && (s.nextID+len(raw))%3 == 0 {
+		// what a peer sends reaches the pool RLP-decoded (the reactor decodes each transaction of a message): a third of
+		// the remote submissions take that way - same transaction, but every memoised field is the decoder's
+		for i, tx := range raw {
+			bz, err := rlp.EncodeToBytes(tx)
+			if err != nil {
+				continue
+			}
+			d := new(types.Transaction)
+			if err := rlp.DecodeBytes(bz, d); err != nil {
+				continue
+			}
+			raw[i] = d
+			s.run.Count("remote_submissions_of_rlp_decoded_transactions", 1)
+		}
+	}
 	var errs []error
 	switch op.Via {
 	case "local":
